@@ -676,7 +676,7 @@ class BGP(protocol.Protocol):
 
     def update_send_version(self, peer_ip, attr, nlri, withdraw):
         if 14 in attr:
-            if attr[14]['afi_safi'] == [1, 133]:
+            if list(attr[14]['afi_safi']) == [1, 133]:
                 LOG.info("send flowspec")
                 for prefix in attr[14]['nlri']:
                     value = copy.deepcopy(attr)
@@ -684,7 +684,7 @@ class BGP(protocol.Protocol):
                     del value14['nlri']
                     key = "{"
                     for k in sorted(prefix.keys()):
-                        key += '"' + k + '"'
+                        key += '"' + str(k) + '"'
                         key += ':'
                         key += '"' + str(prefix[k]) + '"'
                         key += ','
@@ -699,11 +699,11 @@ class BGP(protocol.Protocol):
                         else:
                             self.send_version['flowspec'] += 1
                             self.flowspec_send_dict[str(key)] = value
-            elif attr[14]['afi_safi'] == [1, 73]:
+            elif list(attr[14]['afi_safi']) == [1, 73]:
                 LOG.info('send sr')
                 key = "{"
                 for k in sorted(attr[14]['nlri'].keys()):
-                    key += '"' + k + '"'
+                    key += '"' + str(k) + '"'
                     key += ':'
                     key += '"' + str(attr[14]['nlri'][k]) + '"'
                     key += ','
@@ -718,7 +718,7 @@ class BGP(protocol.Protocol):
                     else:
                         self.send_version['sr_policy'] += 1
                         self.sr_send_dict[str(key)] = attr
-            elif attr[14]['afi_safi'] == [1, 128]:
+            elif list(attr[14]['afi_safi']) == [1, 128]:
                 LOG.info("send mpls_vpn")
                 for prefix in attr[14]['nlri']:
                     value = copy.deepcopy(attr)
@@ -726,7 +726,7 @@ class BGP(protocol.Protocol):
                     del value14['nlri']
                     key = "{"
                     for k in sorted(prefix.keys()):
-                        key += '"' + k + '"'
+                        key += '"' + str(k) + '"'
                         key += ':'
                         key += '"' + str(prefix[k]) + '"'
                         key += ','
@@ -743,12 +743,12 @@ class BGP(protocol.Protocol):
                             self.mpls_vpn_send_dict[str(key)] = value
         # flowspec sr mpls_vpn withdraw
         if 15 in attr:
-            if attr[15]['afi_safi'] == [1, 133]:
+            if list(attr[15]['afi_safi']) == [1, 133]:
                 LOG.info("withdraw flowspec")
                 for prefix in attr[15]['withdraw']:
                     key = "{"
                     for k in sorted(prefix.keys()):
-                        key += '"' + k + '"'
+                        key += '"' + str(k) + '"'
                         key += ':'
                         key += '"' + str(prefix[k]) + '"'
                         key += ','
@@ -759,11 +759,11 @@ class BGP(protocol.Protocol):
                         del self.flowspec_send_dict[str(key)]
                     else:
                         LOG.info("Do not have %s in send flowspec dict" % key)
-            elif attr[15]['afi_safi'] == [1, 73]:
+            elif list(attr[15]['afi_safi']) == [1, 73]:
                 LOG.info('withdraw sr')
                 key = "{"
                 for k in sorted(attr[15]['withdraw'].keys()):
-                    key += '"' + k + '"'
+                    key += '"' + str(k) + '"'
                     key += ':'
                     key += '"' + str(attr[15]['withdraw'][k]) + '"'
                     key += ','
@@ -774,12 +774,12 @@ class BGP(protocol.Protocol):
                     del self.sr_send_dict[str(key)]
                 else:
                     LOG.info("Do not have %s in send flowspec dict" % key)
-            elif attr[15]['afi_safi'] == [1, 128]:
+            elif list(attr[15]['afi_safi']) == [1, 128]:
                 LOG.info("withdraw mpls_vpn")
                 for prefix in attr[15]['withdraw']:
                     key = "{"
                     for k in sorted(prefix.keys()):
-                        key += '"' + k + '"'
+                        key += '"' + str(k) + '"'
                         key += ':'
                         key += '"' + str(prefix[k]) + '"'
                         key += ','
@@ -793,7 +793,7 @@ class BGP(protocol.Protocol):
 
     def update_receive_verion(self, attr, nlri, withdraw):
         if 14 in attr:
-            if attr[14]['afi_safi'] == [1, 133]:
+            if list(attr[14]['afi_safi']) == [1, 133]:
                 LOG.info("recieve flowspec send")
                 for prefix in attr[14]['nlri']:
                     value = copy.deepcopy(attr)
@@ -801,7 +801,7 @@ class BGP(protocol.Protocol):
                     del value14['nlri']
                     key = "{"
                     for k in sorted(prefix.keys()):
-                        key += '"' + k + '"'
+                        key += '"' + str(k) + '"'
                         key += ':'
                         key += '"' + str(prefix[k]) + '"'
                         key += ','
@@ -816,9 +816,9 @@ class BGP(protocol.Protocol):
                         else:
                             self.receive_version['flowspec'] += 1
                             self.flowspec_receive_dict[str(key)] = value
-            elif attr[14]['afi_safi'] == [1, 73]:
+            elif list(attr[14]['afi_safi']) == [1, 73]:
                 LOG.info('recieve sr send')
-            elif attr[14]['afi_safi'] == [1, 128]:
+            elif list(attr[14]['afi_safi']) == [1, 128]:
                 LOG.info("receive send mpls_vpn")
                 for prefix in attr[14]['nlri']:
                     value = copy.deepcopy(attr)
@@ -826,7 +826,7 @@ class BGP(protocol.Protocol):
                     del value14['nlri']
                     key = "{"
                     for k in sorted(prefix.keys()):
-                        key += '"' + k + '"'
+                        key += '"' + str(k) + '"'
                         key += ':'
                         key += '"' + str(prefix[k]) + '"'
                         key += ','
@@ -843,12 +843,12 @@ class BGP(protocol.Protocol):
                             self.mpls_vpn_receive_dict[str(key)] = value
         # receive flowspec sr mpls withdraw
         if 15 in attr:
-            if attr[15]['afi_safi'] == [1, 133]:
+            if list(attr[15]['afi_safi']) == [1, 133]:
                 LOG.info("recieve flowspec withdraw")
                 for prefix in attr[15]['withdraw']:
                     key = "{"
                     for k in sorted(prefix.keys()):
-                        key += '"' + k + '"'
+                        key += '"' + str(k) + '"'
                         key += ':'
                         key += '"' + str(prefix[k]) + '"'
                         key += ','
@@ -859,14 +859,14 @@ class BGP(protocol.Protocol):
                         del self.flowspec_receive_dict[str(key)]
                     else:
                         LOG.info("Do not have %s in receive flowspec dict" % prefix)
-            elif attr[15]['afi_safi'] == [1, 73]:
+            elif list(attr[15]['afi_safi']) == [1, 73]:
                 LOG.info('recieve sr withdraw')
-            elif attr[15]['afi_safi'] == [1, 128]:
+            elif list(attr[15]['afi_safi']) == [1, 128]:
                 LOG.info("recieve withdraw mpls_vpn")
                 for prefix in attr[15]['withdraw']:
                     key = "{"
                     for k in sorted(prefix.keys()):
-                        key += '"' + k + '"'
+                        key += '"' + str(k) + '"'
                         key += ':'
                         key += '"' + str(prefix[k]) + '"'
                         key += ','
